@@ -116,7 +116,7 @@ package broker
 //@   ensures [retained-untouched] !old(msg.Retain) ==> tlast == old(tlast) && nemptied == old(nemptied)
 //@   ensures [released] held == old(held)
 //@   ensures [no-giveup-for-publisher] closingobs[client] == old(closingobs[client])
-//@   modifies msg.Retain, any(topic.node.values), anymap(map[string]*topic.node), elemsof(iface), isnode, held, tlast, nemptied, lastfirst, nchansend, anystop, seen, closingobs
+//@   modifies msg.Retain, any(topic.node.values), anymap(map[string]*topic.node), elemsof(iface), isnode, held, tlast, nemptied, lastfirst, nchansend, anystop, seen, closingobs, present
 //@   loop 1 invariant [state] closingobs[client] == old(closingobs[client]) && held == old(held)[m.globalMutex := 2] && !msg.Retain && msg.Topic == old(msg.Topic) && msg.Payload == old(msg.Payload) && msg.QOS == old(msg.QOS) && backend_ok(m)
 //@   loop 2 invariant [state] closingobs[client] == old(closingobs[client]) && held == old(held)[m.globalMutex := 2] && !msg.Retain && msg.Topic == old(msg.Topic) && msg.Payload == old(msg.Payload) && msg.QOS == old(msg.QOS) && backend_ok(m)
 //@ functype "func(s *broker.memorySession) chan *packet.Message" (s *memorySession) (ch chan *packet.Message)
@@ -159,7 +159,7 @@ package broker
 //@   ensures [stored] forall i int {subs[i]} :: 0 <= i && i < len(subs) && (forall j int {subs[j]} :: i < j && j < len(subs) ==> subs[j].Topic != subs[i].Topic) ==> tlast[as(client.session, *memorySession).subscriptions][subs[i].Topic] != 0 && ptr(tlast[as(client.session, *memorySession).subscriptions][subs[i].Topic], *packet.Subscription).Topic == subs[i].Topic && ptr(tlast[as(client.session, *memorySession).subscriptions][subs[i].Topic], *packet.Subscription).QOS == subs[i].QOS
 //@   ensures [request-intact] forall i int {subs[i]} :: 0 <= i && i < len(subs) ==> subs[i].Topic == old(subs[i].Topic) && subs[i].QOS == old(subs[i].QOS)
 //@   ensures [released] held == old(held)
-//@   modifies any(topic.node.values), anymap(map[string]*topic.node), elemsof(iface), isnode, held, tlast, nenqueued, lastenqueued, anystop, seen
+//@   modifies any(topic.node.values), anymap(map[string]*topic.node), elemsof(iface), isnode, held, tlast, nenqueued, lastenqueued, anystop, seen, present
 //@   loop 1 invariant [stored] 0 <= rangeindex + 1 && rangeindex + 1 <= len(subs) && held == old(held)[m.globalMutex := 2] && backend_ok(m) && own_session(client) && (forall i int {subs[i]} :: 0 <= i && i < len(subs) ==> subs[i].Topic == old(subs[i].Topic) && subs[i].QOS == old(subs[i].QOS)) && forall i int {subs[i]} :: 0 <= i && i <= rangeindex && (forall j int {subs[j]} :: i < j && j <= rangeindex ==> subs[j].Topic != subs[i].Topic) ==> tlast[as(client.session, *memorySession).subscriptions][subs[i].Topic] != 0 && ptr(tlast[as(client.session, *memorySession).subscriptions][subs[i].Topic], *packet.Subscription).Topic == subs[i].Topic && ptr(tlast[as(client.session, *memorySession).subscriptions][subs[i].Topic], *packet.Subscription).QOS == subs[i].QOS
 //@   loop 2 invariant [replay] 0 <= rangeindex + 1 && rangeindex + 1 <= len(subs) && held == old(held)[m.globalMutex := 2] && backend_ok(m) && own_session(client)
 //@   loop 3 invariant [values] 0 <= rangeindex + 1 && rangeindex + 1 <= len(values) && held == old(held)[m.globalMutex := 2] && forall i int {values[i]} :: 0 <= i && i < len(values) ==> values[i] != nil && dyn(values[i]) == typetag(*packet.Message) && payload(values[i]) != 0
@@ -169,7 +169,7 @@ package broker
 //@   requires [backend] client != nil && own_session(client)
 //@   ensures [emptied] err == nil
 //@   ensures [released] held == old(held)
-//@   modifies any(topic.node.values), anymap(map[string]*topic.node), elemsof(iface), held, nemptied
+//@   modifies any(topic.node.values), anymap(map[string]*topic.node), elemsof(iface), held, nemptied, present
 //@   loop 1 invariant [emptying] 0 <= rangeindex + 1 && rangeindex + 1 <= len(topics) && held == old(held) && own_session(client)
 //
 // Dequeue: hands out what applyQOS makes of the queued message.
